@@ -818,6 +818,8 @@ def types(a, env=None, func=False):
                     t = bool
                 else:
                     t = _types_compare(t_l, t_r)
+            else:
+                t = TypeErrorRoot("unsupported comparison operator")
             audits(a, "types", t)
 
     elif isinstance(a, ast.UnaryOp):
